@@ -116,7 +116,8 @@ Definition check (c : c20case) : verdict :=
   | CCreateChord inp keys options excl out =>
       let m := chord_create inp keys options excl in
       let rows := rows_of false inp in
-      let wf := negb (length rows =? 0)%nat in
+      (* chord sizes are between 1 and keys *)
+      let wf := negb (length rows =? 0)%nat && forallb (forallb (fun x => (1 <=? x) && (x <=? keys))) rows in
       {| corr_ok := match m, out with
                     | None, None => true
                     | Some f, Some (w, ar) => (f_w f =? Z.to_nat w)%nat && list_eqb (list_eqb Z.eqb) (f_ar f) ar
